@@ -3,6 +3,7 @@
 
 def CFG(R, FZ):
     return {
+        "C15": dict(pkg="c15", level="exploration", runs=[R(shards=(4, 16))]),
         "C16": dict(pkg="c16", level="exploration", runs=[R(shards=(4, 16))]),
         "C17": dict(pkg="c17", level="exploration", runs=[R(shards=(4, 16))]),
         "C18": dict(pkg="c18", level="exploration", runs=[R(name="race", race=True, shards=(4, 16))]),
